@@ -25,6 +25,7 @@ var extractors = []extractor{
 	{"Select", genSelect},
 	{"Sub", genSub},
 	{"WrapRO", genWrapRO},
+	{"AuthFile", genAuthFile},
 }
 
 func main() {
